@@ -7,6 +7,7 @@ case <id> kind=consts
 case <id> kind=tidy v=<bits> unit=<hex> iu=<hex: implementation's unit> iv=<bits: implementation's value>
 case <id> kind=conc v=<bits> units=<hexlist>   (8 goroutines per 4 fresh units; obs: per unit the set of distinct results)
 case <id> kind=seq v=<bits> units=<hexlist> iseq=<implementation's value:unit list>
+case <id> kind=keep files=<N<name>:bits:unit+… ; …> fk=… pat=<hex> conc=0|1   (one Filter, all Matches taken first, read afterwards)
 case <id> kind=hist files=<N<name>:bits:unit+… ; … | …> fk=u|nu|name|all|re-MODE|nre-MODE (MODE = prefix|exact|sub|suffix: regexp built from the literal pat) pat=<hex> ivals=<implementation's fresh values>
 case <id> kind=file lines=<U:unit:key=val+key=val | B:bits:unit+bits:unit ; …> q=<hexlist> pat=<hexlist> ivals=<implementation's values>
 -/
@@ -188,6 +189,54 @@ def handleHist (l : Line) : IO Unit := do
       if k then '1' else '0')) ";")
   IO.println s!"spec {id} kept={skept}"
 
+/-- `kind=keep`: all Matches of one Filter are taken first and read afterwards; each must be the
+verdict for its own result. -/
+def handleKeep (l : Line) : IO Unit := do
+  let id := l.id
+  let lines : List HLine := ((l.getD "files").splitOn ";").map parseHLine
+  let fk := l.getD "fk"
+  let pat := unhex (l.getD "pat")
+  let conc := l.getD "conc" == "1"
+  let sName : Bytes := Bytes.ofString "Keep"
+  let reMode := (fk.splitOn "-").getD 1 ""
+  let litMatch (u : Bytes) : Bool :=
+    match reMode with
+    | "prefix" => Bytes.hasPrefix u pat
+    | "exact" => u == pat
+    | "suffix" => Bytes.hasPrefix u.reverse pat.reverse
+    | _ => Bytes.contains u pat
+  let isRe := fk.startsWith "re-"
+  let isNre := fk.startsWith "nre-"
+  let keepModel (ln : HLine) (v : Value) : Bool :=
+    if isRe then unitMatch litMatch v
+    else if isNre then !unitMatch litMatch v
+    else match fk with
+    | "u" => unitMatch (· == pat) v
+    | "nu" => !unitMatch (· == pat) v
+    | "name" => ln.name == sName
+    | _ => true
+  let keepSpec (ln : HLine) (u : Bytes) : Bool :=
+    let hit := if isRe || isNre then litMatch u || litMatch (Spec.Tidy.tidyUnit u).1
+               else pat == u || pat == (Spec.Tidy.tidyUnit u).1
+    if isRe then hit else if isNre then !hit else match fk with
+      | "u" => hit
+      | "nu" => !hit
+      | "name" => ln.name == sName
+      | _ => true
+  let showB (b : Bool) : String := if b then "true" else "false"
+  let render (verdicts : HLine → List (Bool × String)) : String :=
+    joinNE (lines.map fun ln =>
+      let vs := verdicts ln
+      let bits := String.ofList (vs.map fun (k, _) => if k then '1' else '0')
+      let anyB := vs.any (·.1)
+      let allB := vs.all (·.1)
+      let after := joinNE ((vs.filter (·.1)).map (·.2)) "+"
+      s!"{bits}:{showB anyB}:{showB allB}:{showB anyB}:{after}") ";"
+  let one := render fun ln => ln.ms.map fun (v, u) => let rv := readerValue v u; (keepModel ln rv, showValue rv)
+  IO.println s!"obs {id} shape=ok kept={if conc then one ++ "|" ++ one else one}"
+  let sone := render fun ln => ln.ms.map fun (v, u) => (keepSpec ln u, showReport (Spec.Tidy.report v u))
+  IO.println s!"spec {id} kept={if conc then sone ++ "|" ++ sone else sone}"
+
 def handle (l : Line) : IO Unit := do
   if l.kind != "case" then return
   let id := l.id
@@ -232,6 +281,7 @@ def handle (l : Line) : IO Unit := do
       | _ => none
     IO.println s!"spec {id} seq={join sseq} base={if iunits.all Spec.Tidy.isBase then 1 else 0}"
   | "hist" => handleHist l
+  | "keep" => handleKeep l
   | _ => pure ()
 
 end Driver.C04
